@@ -812,8 +812,13 @@ class Exec(Engine):
     def inline_call(self, vf, args, kwargs, st, node):
         fnode = vf.node
         if self.cur_contract is not None and not isinstance(fnode, ast.Lambda) and vf.frame is not None:
-            nq = '%s:%s.%s' % (vf.modname, self.cur_contract.func.split('#')[0], vf.name)
+            cf = self.cur_contract.func.split('#')[0]
+            nq = '%s:%s.%s' % (vf.modname, cf, vf.name)
             nc = C.CONTRACTS.get(nq)
+            if nc is None and '.' in cf:
+                # a sibling nested function of the nested function under verification
+                nq = '%s:%s.%s' % (vf.modname, cf.rsplit('.', 1)[0], vf.name)
+                nc = C.CONTRACTS.get(nq)
             if nc is not None and nc is not self.cur_contract:
                 # a nested function under its own contract: closure variables are passed as extra named arguments
                 kw2 = dict(kwargs)
@@ -2165,6 +2170,15 @@ class Exec(Engine):
                             s_k.frames[fid][name] = self.fresh(alt, name, s_k, 'param:' + name)
                             nxt.append(s_k)
                 sts = nxt
+            if 'closure' in c.opts and '.' in c.func:
+                # a nested function: its sibling nested functions are callable (through their own contracts)
+                outer = find_function(c.module, c.func.rsplit('.', 1)[0])
+                if outer is not None:
+                    for sub in ast.walk(outer):
+                        if isinstance(sub, ast.FunctionDef) and sub is not fnode and sub is not outer:
+                            for s in sts:
+                                if sub.name not in s.frames[fid]:
+                                    s.frames[fid][sub.name] = VFunc(sub, fid, {}, sub.name, c.module)
             for s in sts:
                 # *args / **kwargs of the function under verification: empty (a precondition of the contract)
                 if 'region' not in c.opts:
